@@ -427,4 +427,35 @@ theorem represents_empty (tol : Rat) (nt : NumTables) : Represents tol nt [] [] 
   intro c st hc; simp [fsGet, Dict.get?] at hc
 
 
+/-- "name" and "name.data" are the same file: `get_file_path` appends the suffix exactly when it is
+missing -/
+theorem getFilePath_alias (n d : Str) (hn : n ≠ [])
+    (h : n.drop (n.length - 5) ≠ ['.', 'd', 'a', 't', 'a']) :
+    getFilePath (n ++ ['.', 'd', 'a', 't', 'a']) d = getFilePath n d := by
+  have hs : (".data".toList : Str) = ['.', 'd', 'a', 't', 'a'] := by decide
+  unfold getFilePath
+  rw [hs]
+  have h1 : (n ++ ['.', 'd', 'a', 't', 'a']).length - 5 = n.length := by simp
+  have h2 : (n ++ ['.', 'd', 'a', 't', 'a']) ≠ [] := by simp
+  simp only [h2, hn, if_false, h1, List.drop_left, if_true, h]
+
+
+/-- both formats return the same dictionary (the text format in print order) -/
+theorem printed_perm_kept (cls : Cls) (tol : Rat) (A : List Entry) :
+    (entryOp (printedEntries cls tol A)).Perm (entryOp (keptEntries tol A)) :=
+  ((sortEntries_perm cls A).filter _).map _
+
+theorem keptEntries_self_of_entryOp {tol : Rat} {A' B : List Entry}
+    (h : entryOp A' = entryOp B) (hB : ∀ e ∈ B, GQ.isSmall tol e.2.1 = false) : keptEntries tol A' = A' := by
+  unfold keptEntries
+  rw [List.filter_eq_self]
+  intro e he
+  have hm : (e.1, e.2.1) ∈ entryOp A' := List.mem_map.2 ⟨e, he, rfl⟩
+  rw [h] at hm
+  obtain ⟨b, hb, hbe⟩ := List.mem_map.1 hm
+  have : b.2.1 = e.2.1 := by
+    have := congrArg Prod.snd hbe; simpa using this
+  simp [← this, hB b hb]
+
+
 end OFV.C20
